@@ -448,7 +448,7 @@ def gen_gattr_program(rng, same_line=False, with_defaults_case=True):
     return prog
 
 
-def gen_match_program(rng, nglyphs=None, npasses=None, size="small"):
+def gen_match_program(rng, nglyphs=None, npasses=None, size="small", keyslots=False):
     """Family 'match': substitution passes with rules of mixed lengths/pre-contexts, insertions, deletions.
     Exercises matching (C02), precedence/pre-context (C06), class maps (C04)."""
     prog = Prog()
@@ -462,7 +462,12 @@ def gen_match_program(rng, nglyphs=None, npasses=None, size="small"):
     for _p in range(npasses):
         rules = []
         for _r in range(rng.randint(1, 5 if size == "small" else 12)):
-            rules.append(gen_match_rule(rng, prog))
+            r = gen_match_rule(rng, prog)
+            if keyslots and rng.random() < 0.3:
+                cands = [it for it in r.items if it.mod and it.cls is not None and (it.out is None or it.out[0] == "cls")]
+                if cands:
+                    rng.choice(cands).attrs.append(("passKeySlot", "=", "true", {"k": "lit", "v": 1}))
+            rules.append(r)
         passes.append(rules)
     prog.tables.append(("sub", passes))
     return prog
@@ -479,7 +484,7 @@ def gen_match_rule(rng, prog):
     ninput_mod = 0
     for k in range(nmod):
         kind = rng.random()
-        if kind < 0.12 and nmod > 1:
+        if kind < 0.12 and (nmod > 1 or npost > 0):
             # insertion of a single glyph class
             single = [n for n in names if len(prog.classes[n]) == 1]
             if single:
@@ -504,14 +509,14 @@ def gen_match_rule(rng, prog):
         ninput_mod += 1
     for _ in range(npost):
         items.append(Item(cls=rng.choice(names)))
-    # a rule must change something or it is a no-op "cA / _" which is still legal; ensure at least one input item
-    if all(it.cls is None for it in items if it.mod):
+    # ensure at least one input item in the rule
+    if all(it.cls is None for it in items):
         items.append(Item(cls=rng.choice(names), mod=True, out=None))
     r = Rule(items)
     # fix associations for insertions: associate with the nearest input item
     for i, it in enumerate(items):
         if it.cls is None:
-            near = [j for j, x in enumerate(items) if x.cls is not None and x.mod]
+            near = [j for j, x in enumerate(items) if x.cls is not None and x.mod] or [j for j, x in enumerate(items) if x.cls is not None]
             if near:
                 j = min(near, key=lambda j: abs(j - i))
                 it.assoc = [j + 1]
